@@ -181,6 +181,8 @@ def families(tier):
     pairs = [(a, b) for a in bodies for b in bodies]
     for pose in bp_poses:
         fams.append(Wrap(C03.BodyPairs('translate', pose, pairs, {'window': bp_window})))
+        fams.append(Wrap(C03.BodyPairs('nested', pose, [(b, b) for b in bodies],
+                                       {'scales': (_F(1, 2), 2), 'offsets': ((0, 0, 0), (_F(1, 4), 0, 0))})))
     return fams
 
 
